@@ -215,7 +215,7 @@ class Env:
         self.n = 0
         self.lock = threading.Lock()
 
-    def run(self, binary, patterns, fmt="text", gomaxprocs=None, yseed=None, trace=None, timeout=300):
+    def run(self, binary, patterns, fmt="text", gomaxprocs=None, yseed=None, trace=None, timeout=300, ylong=False):
         with self.lock:
             self.n += 1
             n = self.n
@@ -226,6 +226,10 @@ class Env:
             extra["GOMAXPROCS"] = str(gomaxprocs)
         if yseed:
             extra["VERIF_YIELD_SEED_RUNNER"] = str(yseed)
+        if yseed and ylong:
+            # late completions (verifHoldBack): analyzers that usually finish long before another one starts
+            # are no longer ordered before it by the scheduler's hand-off
+            extra["VERIF_YIELD_LONG"] = "1"
         if trace:
             extra["VERIF_TRACE_RUNNER"] = trace
         env = vlib.go_env(extra)
@@ -242,7 +246,7 @@ class Env:
             rc, so, se, hung = -1, (e.stdout or b"").decode(errors="replace") if isinstance(e.stdout, bytes) else (e.stdout or ""), "", True
         finally:
             shutil.rmtree(cache, ignore_errors=True)
-        return {"argv": argv[1:], "gomaxprocs": gomaxprocs, "yseed": yseed, "fmt": fmt, "rc": rc, "out": so,
+        return {"argv": argv[1:], "gomaxprocs": gomaxprocs, "yseed": yseed, "ylong": bool(yseed and ylong), "fmt": fmt, "rc": rc, "out": so,
                 "err": se, "hung": hung, "wall": time.time() - t0, "patterns": list(patterns)}
 
 
@@ -548,15 +552,18 @@ def fixture_oracle(ctx, env, sc, race_bin, stats):
                            "expected": want, "observed": r["out"], "rc": r["rc"], "stderr": r["err"][-1500:]})
 
     # (3) race detector
-    rconfigs = [(PKGS, "text", gp, ys) for gp in (2, 4, 16) for ys in (yseeds[:2] if ctx.quick else yseeds)]
+    rconfigs = [(PKGS, "text", gp, ys, False) for gp in (2, 4, 16) for ys in (yseeds[:2] if ctx.quick else yseeds)]
+    # the same with late completions, more seeds: whether two given analyzers overlap depends on the seed
+    rconfigs += [(PKGS, "text", gp, ctx.seed * 1000 + 17 * k + gp, True) for gp in (4, 16) for k in range(6 if ctx.quick else 24)]
     if not ctx.quick:
-        rconfigs += [(s, "text", 4, yseeds[1]) for s in vlib.sample(ctx, subsets, 8)]
+        rconfigs += [(s, "text", 4, yseeds[1], False) for s in vlib.sample(ctx, subsets, 8)]
 
     def rone(cfg):
-        pats, fmt, gp, ys = cfg
-        return env.run(race_bin, pats, fmt=fmt, gomaxprocs=gp, yseed=ys or None, timeout=max(600.0, 20 * tmo))
+        pats, fmt, gp, ys, ylong = cfg
+        return env.run(race_bin, pats, fmt=fmt, gomaxprocs=gp, yseed=ys or None, timeout=max(600.0, 20 * tmo), ylong=ylong)
     rres = vlib.pmap(rone, rconfigs, workers=4) if race_bin else []
     stats["race_runs"] = len(rres)
+    stats["race_runs_late_completions"] = len([c for c in rconfigs if c[4]]) if race_bin else 0
     for r in rres:
         if "WARNING: DATA RACE" in r["err"] or r["rc"] == 66:
             m = re.search(r"WARNING: DATA RACE\n(.*?)\n\n", r["err"], re.S)
@@ -564,7 +571,7 @@ def fixture_oracle(ctx, env, sc, race_bin, stats):
             where = re.findall(r"^\s+(\S+\(\))?\s*\n?\s+(/\S+\.go:\d+)", r["err"], re.M)
             ctx.violation(vlib.canon_key({"race": sorted(set(w[1].split("/")[-1] for w in where[:4]))}),
                           "data race reported by the race detector (GOMAXPROCS=%s, yield seed %s): %s" % (r["gomaxprocs"], r["yseed"], first[:300]),
-                          {"kind": "race", "run": {k: r[k] for k in ("argv", "gomaxprocs", "yseed", "fmt")}, "report": r["err"][:6000]})
+                          {"kind": "race", "run": dict({k: r[k] for k in ("argv", "gomaxprocs", "yseed", "fmt")}, ylong=r.get("ylong", False)), "report": r["err"][:6000]})
         elif r["hung"]:
             ctx.violation(vlib.canon_key({"race-hang": r["gomaxprocs"]}), "race build hung (GOMAXPROCS=%s)" % r["gomaxprocs"],
                           {"kind": "race", "run": {k: r[k] for k in ("argv", "gomaxprocs", "yseed", "fmt")}, "hung": True})
@@ -708,7 +715,7 @@ def replay(ctx):
         run_ = case["run"]
         pats = [a[2:] for a in run_["argv"] if a.startswith("./")]
         for _ in range(6):
-            r = env.run(race_bin, pats, gomaxprocs=run_["gomaxprocs"], yseed=run_["yseed"], timeout=1800)
+            r = env.run(race_bin, pats, gomaxprocs=run_["gomaxprocs"], yseed=run_["yseed"], timeout=1800, ylong=run_.get("ylong", False))
             if "WARNING: DATA RACE" in r["err"] or r["hung"]:
                 ctx.violation(doc["key"], doc["what"], case)
                 return
